@@ -246,4 +246,7 @@ def run(ctx, rep) -> None:
 
     rep.rule("C11.5", "the eigen solver is a function of its tensor arguments: no in-place operation lands in the caller's matrix (the ridge is formed out of place)")
     rep.attempt("tensor_arguments_are_inputs", tensor_arguments_are_inputs, ctx, rep, "C11.5")
+    from .c12 import defaults_agree_with_configs
+
+    rep.attempt("defaults_agree_with_configs", defaults_agree_with_configs, ctx, rep, "C11.3")
     rep.assume("finiteness, symmetry, the eigenvalue bound, commutation and equivariance of the result are numerical and NOT decided; C11.2 decides the scalar recurrence applied to each eigenvalue")
